@@ -284,6 +284,18 @@ def run(ctx):
                     detail = f"handles = {'.'.join(reversed(chain))} over {sym_str(cur)[:60]}"
                     inner = [c for c in nonforeign_calls(f) if (c.t.get("trait") or "").endswith("recorder::Recorder")]
                     ok = ok and len(inner) == 1 and inner[0].fn is not f
+                    if not ok and len(inner) == 1:
+                        # spelled as a loop: for r in &self.recorders { handles.push(r.register_x(key, metadata)) }
+                        from props.common import iteration_context
+
+                        pushes = [c for c in nonforeign_calls(f) if c.is_("Vec<T, A>::push") and c.fn is inner[0].fn]
+                        if len(pushes) == 1 and sym_is_call(Sym(pushes[0].fn).operand(pushes[0].args[1]), callee_method_name(inner[0])):
+                            src, _w = iteration_context(pushes[0])
+                            src_ = strip_sym(src) if src is not None else None
+                            same_vec = repr(strip_sym(sym_through(Sym(pushes[0].fn).operand(pushes[0].args[0])))) == repr(strip_sym(sym_through(v))) or "with_capacity" in sym_str(v) or "Vec::new" in sym_str(v) or sym_is_call(v, "Vec<T>::new")
+                            if src_ is not None and src_[0] == "field" and src_[2] == "recorders" and same_vec:
+                                ok = True
+                                detail = "handles pushed once per recorder in a loop"
                 chk.ob("C13.e", f"{f.path} [one handle per recorder]", ok, "collects recorders.iter().map(register).collect() — no filtering/truncating adapter" if ok else f"registration does not collect exactly one handle per recorder ({detail})", f.loc())
 
     # ---------------- C13.f
